@@ -447,4 +447,17 @@ theorem seqLocal_bracket (s₀ : NSt) (pre post : List (Nat × ROp)) (t : Nat) (
       (onReturn pan nid (flush lt) op (rrun op s).1)) (rrun op s).2 post t).all = _
   rw [he, upd_same, onReturn_flush_all]
 
+/-! ### the counter-example without the mutex (used by `C17.unlocked_not_linearizable`) -/
+
+/-- the goroutines of the counter-example: 0 calls `Register(t5, 1, "a", "b")`, 1 calls `Unregister(t5)` -/
+def raceProgs : Nat → List ROp := fun t =>
+  if t = 0 then [.register 5 1 [[97], [98]]] else if t = 1 then [.unregister 5] else []
+
+/-- goroutine 1 runs its whole `Unregister` between the two iterations of goroutine 0's `Register` loop -/
+def raceSchedule : List Nat := [0, 0, 0, 1, 1, 1, 1, 1, 0, 0, 0]
+
+/-- what one can see of the registry: is t5 registered for "a", for "b", has it a name-map entry -/
+def raceObs (s : NSt) : Option Int × Option Int × Bool :=
+  (lookup s.prod [[97]] 5, lookup s.prod [[98]] 5, (assocGet s.names 5).isSome)
+
 end NtC
